@@ -9,6 +9,20 @@ pub struct Counting;
 
 static CUR: AtomicUsize = AtomicUsize::new(0);
 static PEAK: AtomicUsize = AtomicUsize::new(0);
+/// Live-byte cap (child processes only): an allocation that would exceed it FAILS (null), which
+/// makes Rust abort the process with "memory allocation of N bytes failed" — the parent attributes
+/// the abort to the input being processed. `usize::MAX` = no cap.
+static CAP: AtomicUsize = AtomicUsize::new(usize::MAX);
+
+pub fn set_cap(n: usize) {
+    CAP.store(n, Relaxed);
+}
+
+#[inline]
+fn over_cap(extra: usize) -> bool {
+    let cap = CAP.load(Relaxed);
+    cap != usize::MAX && CUR.load(Relaxed).saturating_add(extra) > cap
+}
 
 #[inline]
 fn add(n: usize) {
@@ -18,6 +32,9 @@ fn add(n: usize) {
 
 unsafe impl GlobalAlloc for Counting {
     unsafe fn alloc(&self, l: Layout) -> *mut u8 {
+        if over_cap(l.size()) {
+            return std::ptr::null_mut();
+        }
         let p = System.alloc(l);
         if !p.is_null() {
             add(l.size());
@@ -25,6 +42,9 @@ unsafe impl GlobalAlloc for Counting {
         p
     }
     unsafe fn alloc_zeroed(&self, l: Layout) -> *mut u8 {
+        if over_cap(l.size()) {
+            return std::ptr::null_mut();
+        }
         let p = System.alloc_zeroed(l);
         if !p.is_null() {
             add(l.size());
@@ -36,6 +56,9 @@ unsafe impl GlobalAlloc for Counting {
         CUR.fetch_sub(l.size(), Relaxed);
     }
     unsafe fn realloc(&self, p: *mut u8, l: Layout, new: usize) -> *mut u8 {
+        if new > l.size() && over_cap(new - l.size()) {
+            return std::ptr::null_mut();
+        }
         let q = System.realloc(p, l, new);
         if !q.is_null() {
             if new >= l.size() {
